@@ -1,12 +1,21 @@
 SPEC = {
     "id": "C05",
     "level": "proof",
-    "theorem_modules": ["GluonModel.Theorems.C05", "GluonModel.Theorems.SysC05"],
+    "theorem_modules": ["GluonModel.Theorems.C05", "GluonModel.Theorems.C01Close", "GluonModel.Theorems.SysC05"],
     "correspondences": [
         {"dialect": "flush", "quick_n": 6000, "thorough_n": 200000, "judge": "judge-c05-flush"},
         {"dialect": "sys", "quick_n": 250, "thorough_n": 5000, "judge": "judge-c05-sys"},
     ],
     "oracles": [
+        # hist, error paths (harness/hfc_conn.go, hfc_hist.go): every fourth history runs against a connector whose NEXT
+        # call of a chosen kind fails on request (X FAILCONN / X FAILNEXT <kind> [n] / X FAILCLEAR) and sends every command
+        # kind once through [other sessions' changes delivered, not flushed -> the session's own CLOSE / EXPUNGE / UID
+        # EXPUNGE / STORE / COPY / MOVE / APPEND / body FETCH, answered NO -> PROBE -> NOOP -> PROBE -> X CONVERGE]: a
+        # failed command may not have changed the view silently; a CLOSE answered NO leaves the mailbox selected.
+        # Directed instances: corpus/C01/hfc-*.hist, corpus/C05/hfc-*.hist.
+        # C05 clause evaluated on every probe (hist.go feedProbe / hfc_hist.go hfcRemovalAnnounced; inside NoOvertake, i.e.
+        # in histories without X HOLD / X RACY): a message the client knows by UID is still shown unless an EXPUNGE was
+        # announced for it - a removal applied to the view silently is never announced by any later command.
         {"name": "hist", "quick_args": ["-props", "C05", "-n", "25", "-steps", "40"],
          "thorough_args": ["-props", "C05", "-n", "400", "-steps", "70", "-profile", "hold,samebox"], "timeout": 3000},
     ],
@@ -14,6 +23,7 @@ SPEC = {
         "Lean 4.33.0 kernel; axioms limited to propext, Classical.choice, Quot.sound (audited per theorem)",
         "hand-written model GluonModel/Model/{Flags,Snap,Resp,Responder}.lean of State.flushResponses/popResponders/responder.handle/response.Merge, tied by the `flush` correspondence dialect (differential testing, not proof)",
         "facts translator harness/facts.go (go/ast) for the flush(...) call-site table",
+        "facts translator harness/facts_hfc.go (go/ast) for the calls a session handler makes after marking its context as CLOSE (theorem C01.silent_flush_then_deselect in Theorems/C01Close.lean: a flush under the CLOSE context drops removals without announcing them, which is sound only because the deselection follows unconditionally)",
         "verif hooks internal/state/verif_export.go (VerifFlush builds the State the real flushResponses runs on)",
     ],
     "assumptions": [
